@@ -21,5 +21,11 @@ for f in sorted(glob.glob(os.path.join(os.path.dirname(os.path.abspath(__file__)
     except common.TranslateError as e:
         print("translator failed for %s: %s" % (name, e))
         failed = True
+try:
+    import translate_classes
+    for rel, text in translate_classes.gen().items():
+        build.write_if_changed(os.path.join(build.COQ, "gen", rel), text)
+except common.TranslateError as e:
+    print("translator failed for the class table: %s" % e)
 # a translator failure does not stop the build: the affected check reports the broken tie itself
 sys.exit(0)
